@@ -296,10 +296,15 @@ func c15Branches(in *c15In, units map[string][]c15Unit) []string {
 				continue
 			}
 			advance(in.Server, c15Num(call[1]))
+			if c15Num(call[1]) > 0 && c15Str(call[2]) != "ok" {
+				s.tag("read-data-with-" + c15Str(call[2]))
+			}
 			switch c15Str(call[2]) {
 			case "fail":
 				s.lost("read-fail")
-			case "timeout":
+			case "eof":
+				s.lost("read-eof")
+			case "timeout", "deadline":
 				s.tag("read-timeout:ignored")
 			}
 		case "w":
@@ -307,10 +312,32 @@ func c15Branches(in *c15In, units map[string][]c15Unit) []string {
 				continue
 			}
 			advance(!in.Server, c15Num(call[1]))
+			if n := c15Num(call[1]); n > 0 {
+				wn := n
+				if c15Str(call[2]) != "ok" {
+					wn = n / 2
+				}
+				if len(call) >= 5 {
+					wn = n
+					if c15Num(call[4]) < n {
+						wn = c15Num(call[4])
+					}
+				}
+				switch {
+				case wn < n && c15Str(call[2]) == "ok":
+					s.tag("write-short-without-error")
+				case wn < n:
+					s.tag("write-short-with-" + c15Str(call[2]))
+				case c15Str(call[2]) != "ok":
+					s.tag("write-full-count-with-" + c15Str(call[2]))
+				}
+			}
 			switch c15Str(call[2]) {
 			case "fail":
 				s.lost("write-fail")
-			case "timeout":
+			case "eof":
+				s.lost("write-eof")
+			case "timeout", "deadline":
 				s.lost("write-timeout")
 			}
 		case "c":
